@@ -669,14 +669,16 @@ def c20_reuse(ctx, case):
     _labels(ctx, name, N)
     ctx.nontrivial(True)
     get = (lambda: W.create_window(N, name)) if case["via"] == "factory" else (lambda: W.Window(N, name).data)
-    first = np.array(get(), dtype=float, copy=False)
+    first = np.asarray(get())                                # the very array the caller was given
+    ctx.check(first.dtype.kind == "f", "%s(N=%d) has dtype %s, expected real floating point" % (name, N, first.dtype), sig=_sig(name, N, "dtype"))
     keep = first.copy()
     try:
         first /= max(float(np.sum(first)), 1e-300)          # the caller normalises its copy in place ...
         first[0] = -7.0                                      # ... and overwrites a sample
     except ValueError:
         pass                                                 # a read-only result is also fine
-    second = np.asarray(get(), dtype=float)
+    second = np.asarray(get())
+    ctx.check(second.dtype.kind == "f", "%s(N=%d) has dtype %s, expected real floating point" % (name, N, second.dtype), sig=_sig(name, N, "dtype"))
     ctx.check(second.shape == keep.shape and np.array_equal(second, keep),
               "%s(N=%d) requested again after the caller modified the first result in place: samples differ (first sample %r, expected %r)"
               % (name, N, second[0] if second.size else None, keep[0] if keep.size else None), sig=_sig(name, N, "reuse"))
